@@ -98,9 +98,11 @@ CLAIMS = {
    text="Lean 4 theorems: for UnionFind, EVERY history of add/find/find_item/union (on arbitrary existing ids)/union_add runs without panic, keeps the "
         "well-formedness invariant (parents in range, ranks increase to the root, next pointers form one cycle per class, items/elems agree; find's "
         "path halving never exhausts its fuel) and two items are in the same class iff connected by the unions performed (uf_run_ok, uf_same_class_iff). "
-        "For TrRelUnionFind, contains <-> reflexive transitive closure and panic-freedom are proved for every collapse-free history (tr_acyclic_contains_iff, "
-        "tr_contains_iff_partial; key lemma tr_addSetConnection_exact); the back-edge collapse (merge_multiple) and iter_all/set_of/rev_set_of/count_exact "
-        "are PARTIAL: covered by the correspondence only. Tie: every `tr add` history of length <= 4 over 4 elements (canonical to 5/6), all uf histories "
+        "For TrRelUnionFind, for EVERY history of add (including the back-edge collapse through merge_multiple): no unwrap/assert fails, the fuel of "
+        "get_dominant_id always suffices, both self-checks hold, contains <-> reflexive transitive closure of the added pairs restricted to mentioned "
+        "elements (tr_contains_iff, tr_run_inv, tr_collapse_run), set_of/rev_set_of/iter_all enumerate exactly the closure without duplicates and count_exact "
+        "is its size (tr_set_of, tr_rev_set_of, tr_iter_all, tr_count_exact). "
+        "Tie: every `tr add` history of length <= 4 over 4 elements (canonical to 5/6), all uf histories "
         "of length <= 3/4, PRNG histories to length 60, all queries and consistency checks after each op, real code vs Lean model vs Floyd-Warshall/partition oracle.",
    design_ref="DESIGN.md §8 C18",
    note="Lean kernel; axioms propext/Classical.choice/Quot.sound; models hand-written statement by statement, tied by op-history diffing; "
